@@ -34,5 +34,8 @@ ASSUME PrintT(<<"CONST", ToJson([units |-> [n \in DOMAIN Base.units |-> UnitJ(Ba
 \* two-name activations: rule + redefinition, two redefinitions, and both orders of an ill-formed member (the well-formed
 \* member's redefinition must not survive the failed call)
 Pairs == {<<"R", "D">>, <<"RD", "D">>, <<"D", "BAD">>, <<"BAD", "RD">>}
+\* the law configurations (MC_Pint, MC_Pint_q) offer two of the pairs - a well-formed one and the one whose second member is
+\* ill-formed - to keep the exhaustive runs short; generator, simulation and trace configurations offer all four
+PairsQ == {<<"R", "D">>, <<"D", "BAD">>}
 AllOps == {"enable", "enable2", "disable", "with", "with2", "define", "system", "query"}
 =============================================================================
